@@ -1111,9 +1111,6 @@ impl UnifiedCommandExecutor {
                     popped.push(RespFrame::from_string(score.to_string()));
                 }
                 
-                if popped.is_empty() {
-                    return Ok(RespFrame::null_array()); // as the ZPOPMIN handler
-                }
                 Ok(RespFrame::Array(Some(popped)))
             }
             
@@ -1127,9 +1124,6 @@ impl UnifiedCommandExecutor {
                     popped.push(RespFrame::from_string(score.to_string()));
                 }
                 
-                if popped.is_empty() {
-                    return Ok(RespFrame::null_array()); // as the ZPOPMAX handler
-                }
                 Ok(RespFrame::Array(Some(popped)))
             }
             
